@@ -33,6 +33,10 @@ type fileHandle struct {
 	f      *fileObj
 	pos    int
 	closed bool
+	// the byte position lies strictly inside line pos (after a Seek to an offset that is not a line start): the next
+	// read yields the rest of that line (rest bytes, content unknown)
+	partial bool
+	rest    *Term
 }
 
 type scannerObj struct {
@@ -105,11 +109,38 @@ func registerIO(P *Program) {
 		h := handleOf(in, args[0])
 		off, ok := cint(args[1])
 		wh, ok2 := cint(args[2])
-		if !ok || !ok2 || off != 0 || wh != 0 {
-			panic(unsupported("os.File.Seek other than (0,0)"))
+		if ok && ok2 && off == 0 && wh == 0 {
+			h.pos, h.partial = 0, false
+			return Tuple{in.ts.BV(64, 0), Iface{}}
 		}
-		h.pos = 0
-		return Tuple{in.ts.BV(64, 0), Iface{}}
+		if !ok2 || wh != 0 {
+			panic(unsupported("os.File.Seek with whence != io.SeekStart"))
+		}
+		// absolute byte offset: find the line it falls into (case split over the lines written so far)
+		ts := in.ts
+		offBV := args[1].(*Term)
+		offT := ts.SBv2Int(offBV)
+		if in.branch(nil, nil, ts.ILt(offT, ts.Int(0))) {
+			return Tuple{ts.BV(64, 0), in.newError(ts.Str("seek: invalid argument"))}
+		}
+		cum := ts.Int(0)
+		for j := 0; j <= len(h.f.lines); j++ {
+			if in.branch(nil, nil, ts.Eq(offT, cum)) {
+				h.pos, h.partial = j, false
+				return Tuple{offBV, Iface{}}
+			}
+			if j == len(h.f.lines) {
+				break
+			}
+			next := ts.IAdd(cum, h.f.lines[j].length)
+			if in.branch(nil, nil, ts.ILt(offT, next)) {
+				h.pos, h.partial, h.rest = j, true, ts.ISub(next, offT)
+				return Tuple{offBV, Iface{}}
+			}
+			cum = next
+		}
+		h.pos, h.partial = len(h.f.lines), false // beyond the end: nothing to read
+		return Tuple{offBV, Iface{}}
 	})
 	r("(*os.File).Write", func(in *Interp, caller *frame, fn *ssa.Function, args []Value) Value {
 		h := handleOf(in, args[0])
@@ -232,6 +263,14 @@ func registerIO(P *Program) {
 			return in.ts.False()
 		}
 		ln := h.f.lines[h.pos]
+		if h.partial {
+			// the tail of a line: rest bytes of unknown content (it still ends with the line's newline)
+			in.opq++
+			sym := in.ts.FreshSym(fmt.Sprintf("linetail!%d", in.opq), StrSort)
+			in.ts.big[sym.s] = true
+			ln = &fileLine{content: SliceV{Blob: in.strBlob(sym)}, length: h.rest}
+			h.partial = false
+		}
 		// the line and its newline must fit the maximum token size
 		fits := in.ts.ILt(ln.length, in.ts.Int(sc.maxTok))
 		if in.branch(nil, nil, fits) {
